@@ -10,6 +10,7 @@ import (
 	"context"
 	"errors"
 	"fmt"
+	"io"
 	"strings"
 	"time"
 
@@ -33,10 +34,19 @@ type cfg struct {
 	Two    bool // two concurrent confirmable requests (NSTART check)
 	Events int  // max number of non-tick events in a history
 	WriteFail bool // the first datagram write fails with a transient error (the call returns an error at once)
+	Deadline  bool // the request context carries a deadline far beyond the retransmission span (instead of a plain cancel context)
+	BodyPeek  bool // the request has a payload whose reader the application has already read 4 bytes of
 }
 
 func (c cfg) String() string {
-	return fmt.Sprintf("udp-conn CON Do: ACK_TIMEOUT=%v MAX_RETRANSMIT=%d NSTART=%d requests=%d events<=%d first-write-fails=%v", T, c.R, c.NStart, map[bool]int{false: 1, true: 2}[c.Two], c.Events, c.WriteFail)
+	x := ""
+	if c.Deadline {
+		x += " context-deadline=10min"
+	}
+	if c.BodyPeek {
+		x += " payload-reader-at-offset-4"
+	}
+	return fmt.Sprintf("udp-conn CON Do: ACK_TIMEOUT=%v MAX_RETRANSMIT=%d NSTART=%d requests=%d events<=%d first-write-fails=%v%s", T, c.R, c.NStart, map[bool]int{false: 1, true: 2}[c.Two], c.Events, c.WriteFail, x)
 }
 
 type reqState struct {
@@ -81,9 +91,21 @@ func scenario(c cfg) *mcx.Scenario {
 				for i := range reqs {
 					i := i
 					ctx, cancel := context.WithCancel(context.Background())
+					if c.Deadline {
+						var c2 context.CancelFunc
+						ctx, c2 = vrt.WithTimeout(ctx, 10*time.Minute)
+						_ = c2
+					}
 					reqs[i] = &reqState{token: message.Token{0xA0 + byte(i)}, cancel: cancel}
 					vrt.App(fmt.Sprintf("do%d", i), func() {
-						req := w.Request(ctx, codes.GET, fmt.Sprintf("/r%d", i), reqs[i].token, message.Confirmable, nil)
+						var payload []byte
+						if c.BodyPeek {
+							payload = []byte("0123456789abcdef")
+						}
+						req := w.Request(ctx, codes.GET, fmt.Sprintf("/r%d", i), reqs[i].token, message.Confirmable, payload)
+						if c.BodyPeek {
+							_, _ = req.Body().Seek(4, io.SeekStart) // the application looked at the beginning of its payload
+						}
 						reqs[i].started = true
 						resp, err := w.CC.Do(req)
 						reqs[i].err = err
@@ -285,6 +307,8 @@ func main() {
 	}
 	scs = append(scs, scenario(cfg{R: 4, NStart: 1, Events: ev.Pick(r, 2, 3)}))
 	scs = append(scs, scenario(cfg{R: 2, NStart: 1, Events: 1, WriteFail: true}))
+	scs = append(scs, scenario(cfg{R: 2, NStart: 1, Events: ev.Pick(r, 2, 3), Deadline: true}))
+	scs = append(scs, scenario(cfg{R: 1, NStart: 1, Events: ev.Pick(r, 1, 2), BodyPeek: true}))
 	for _, ns := range []uint32{1, 2} {
 		scs = append(scs, scenario(cfg{R: 1, NStart: ns, Two: true, Events: ev.Pick(r, 2, 3)}))
 	}
